@@ -121,6 +121,12 @@ impl Send {
         ensures match res { Ok(w) => w.bytes <= limit, Err(_) => *final(self) == *old(self) },
             final(self).priority == old(self).priority, final(self).connection_blocked == old(self).connection_blocked
     { unimplemented!() }
+    /// Send::ack (proved against its own contract in unit send_stream): never changes whether the stream is reset
+    #[verifier::external_body] pub fn ack(&mut self, frame: frame::StreamMeta) -> (r: bool)
+        ensures (final(self).state is ResetSent) == (old(self).state is ResetSent), r ==> old(self).state is DataSent, r == old(self).ack_done(frame)
+    { unimplemented!() }
+    /// the answer of Send::ack: the FIN and every byte of the stream are acknowledged once this frame is (unit send_stream states it exactly)
+    pub uninterp spec fn ack_done(&self, frame: frame::StreamMeta) -> bool;
     /// `pending.has_unsent_data() || fin_pending`
     #[verifier::external_body] pub fn is_pending(&self) -> (r: bool) { unimplemented!() }
     /// clauses of Send::increase_max_data proved on the real function in unit send_stream
@@ -142,6 +148,41 @@ pub fn send_entry<'a>(m: &'a mut FxHashMap<super::code::StreamId, Option<Box<Sen
     ensures match r {
         Some(st) => send_abs(*old(m), id) == Some(*st) && send_abs(*final(m), id) == Some(*final(st)),
         None => send_abs(*old(m), id).is_none() && *final(m) == *old(m),
+    }
+{ unimplemented!() }
+/// `HashMap::entry(id)` of the send map when occupied (same modelling as RecvOcc): `slot()` is what the slot holds (None: the stream's
+/// Send has not been materialised), `fut` the map once the entry is gone
+#[verifier::external_body] pub struct SendOcc<'a> { m: &'a mut FxHashMap<super::code::StreamId, Option<Box<Send>>> }
+impl<'a> SendOcc<'a> {
+    pub uninterp spec fn slot(&self) -> Option<Send>;
+    pub uninterp spec fn key(&self) -> super::code::StreamId;
+    pub uninterp spec fn fut(&self) -> FxHashMap<super::code::StreamId, Option<Box<Send>>>;
+    pub uninterp spec fn removed(&self) -> bool;
+    /// `entry.get_mut().as_mut()`
+    #[verifier::external_body] pub fn get_send<'b>(&'b mut self) -> (r: Option<&'b mut Send>)
+        requires !old(self).removed()
+        ensures final(self).key() == old(self).key(), final(self).fut() == old(self).fut(), !final(self).removed(),
+            match r { Some(st) => old(self).slot() == Some(*st) && final(self).slot() == Some(*final(st)), None => old(self).slot().is_none() && final(self).slot().is_none() }
+    { unimplemented!() }
+    /// `entry.remove_entry()` (borrowing instead of consuming, see RecvOcc::remove)
+    #[verifier::external_body] pub fn remove_entry(&mut self)
+        requires !old(self).removed()
+        ensures final(self).removed(), final(self).key() == old(self).key(), final(self).fut() == old(self).fut()
+    { unimplemented!() }
+}
+/// when the entry is gone the map holds its (possibly modified) slot, or no entry for that id if it was removed; other ids are untouched
+#[verifier::external_body]
+pub broadcast proof fn axiom_send_occ_resolved<'a>(e: SendOcc<'a>)
+    ensures #[trigger] has_resolved(e) ==> e.fut().has(e.key()) == !e.removed() && (!e.removed() ==> send_slot(e.fut(), e.key()) == e.slot())
+{}
+/// what the send map holds for `id`: Some(slot) when there is an entry
+pub uninterp spec fn send_slot(m: FxHashMap<super::code::StreamId, Option<Box<Send>>>, id: super::code::StreamId) -> Option<Send>;
+/// `match self.send.entry(id) { Vacant(_) => .., Occupied(e) => e }`
+#[verifier::external_body]
+pub fn send_occupied<'a>(m: &'a mut FxHashMap<super::code::StreamId, Option<Box<Send>>>, id: super::code::StreamId) -> (r: Option<SendOcc<'a>>)
+    ensures match r {
+        Some(e) => old(m).has(id) && send_slot(*old(m), id) == e.slot() && e.key() == id && *final(m) == e.fut() && !e.removed(),
+        None => !old(m).has(id) && *final(m) == *old(m),
     }
 { unimplemented!() }
 /// `self.send.get_mut(&id).and_then(|s| s.as_mut())`: an already materialised send half, if any
@@ -435,6 +476,8 @@ impl StreamsState {
     pub open spec fn fc(&self) -> (u64, u64, u64, VarInt, u64, u64) {
         (self.local_max_data, self.data_recvd, self.receive_window_shrink_debt, self.sent_max_data, self.receive_window, self.stream_receive_window)
     }
+    /// send-side connection flow-control counters
+    pub open spec fn sfc(&self) -> (u64, u64, u64, u64) { (self.max_data, self.data_sent, self.unacked_data, self.send_window) }
     /// opaque: bookkeeping when a receive half is dropped (stream counters, recycling the allocation); touches no flow-control field
     #[verifier::external_body]
     pub fn stream_recv_freed(&mut self, id: StreamId, recv: StreamRecv)
@@ -659,9 +702,10 @@ impl StreamsState {
             final(self).max_remote[di(dir)] - old(self).max_remote[di(dir)] == final(self).allocated_remote_count[di(dir)] - old(self).allocated_remote_count[di(dir)],
             final(self).allocated_remote_count[1 - di(dir)] == old(self).allocated_remote_count[1 - di(dir)], final(self).max_remote[1 - di(dir)] == old(self).max_remote[1 - di(dir)],
             final(self).side == old(self).side, final(self).send_streams == old(self).send_streams, final(self).max_concurrent_remote_count == old(self).max_concurrent_remote_count,
-            final(self).next == old(self).next, final(self).max == old(self).max,
+            final(self).next == old(self).next, final(self).max == old(self).max, final(self).fc() == old(self).fc(), final(self).sfc() == old(self).sfc(),
 //@ loop 0
             invariant
+                self.fc() == old(self).fc(), self.sfc() == old(self).sfc(),
                 self.side == old(self).side, self.next == old(self).next, self.max == old(self).max, self.max_remote == old(self).max_remote,
                 self.allocated_remote_count == old(self).allocated_remote_count, self.send_streams == old(self).send_streams,
                 self.max_concurrent_remote_count == old(self).max_concurrent_remote_count,
@@ -676,6 +720,7 @@ impl StreamsState {
             id.initiator() != old(self).side ==> old(self).allocated_remote_count[di(id.dir())] >= 1,
             old(self).max_remote[di(id.dir())] + old(self).max_concurrent_remote_count[di(id.dir())] <= 0x1000_0000_0000_0000,
         ensures
+            final(self).fc() == old(self).fc(), final(self).sfc() == old(self).sfc(), final(self).side == old(self).side,
             final(self).send_streams == (if half == StreamHalf::Send { old(self).send_streams - 1 } else { old(self).send_streams as int }),
             ({
                 let d = di(id.dir());
@@ -748,6 +793,31 @@ impl StreamsState {
         }
 //@ after let end = rs.end;
         proof { rs.lemma_wf(); }
+//@ end
+
+//@ extract quinn-proto/src/connection/streams/state.rs :: impl StreamsState::fn received_ack_of
+//@ props C05
+//@ replace ws:match self.send.entry(frame.id) { hash_map::Entry::Vacant(_) => return, hash_map::Entry::Occupied(e) => e, } ==>> match send_occupied(&mut self.send, frame.id) { None => return, Some(e) => e }
+//@ replace entry.get_mut().as_mut() => entry.get_send()
+//@ at-start
+        broadcast use axiom_send_occ_resolved;
+//@ contract
+        requires
+            frame.offsets.start <= frame.offsets.end,
+            // history: what is acknowledged on a stream that was not reset had been counted as unacknowledged when it was written
+            (send_slot(old(self).send, frame.id) matches Some(st) && old(self).send.has(frame.id) && !(st.state is ResetSent)) ==> frame.offsets.end - frame.offsets.start <= old(self).unacked_data,
+            old(self).send_streams >= 1,
+            frame.id.initiator() != old(self).side ==> old(self).allocated_remote_count[di(frame.id.dir())] >= 1,
+            old(self).max_remote[di(frame.id.dir())] + old(self).max_concurrent_remote_count[di(frame.id.dir())] <= 0x1000_0000_0000_0000,
+        ensures
+            // acknowledged bytes stop counting against the send window exactly once: data of a reset stream was written off when it was reset
+            final(self).unacked_data == (if old(self).send.has(frame.id) && (send_slot(old(self).send, frame.id) matches Some(st) && !(st.state is ResetSent))
+                { (old(self).unacked_data - (frame.offsets.end - frame.offsets.start)) as u64 } else { old(self).unacked_data }),
+            final(self).data_sent == old(self).data_sent, final(self).max_data == old(self).max_data, final(self).send_window == old(self).send_window,
+            final(self).fc() == old(self).fc(),
+            // the send half is freed only when the stream says that everything, FIN included, is acknowledged
+            final(self).send_streams == (if old(self).send.has(frame.id) && (send_slot(old(self).send, frame.id) matches Some(st) && !(st.state is ResetSent) && st.ack_done(frame))
+                { (old(self).send_streams - 1) as usize } else { old(self).send_streams }),
 //@ end
 
 //@ extract quinn-proto/src/connection/streams/state.rs :: impl StreamsState::fn write_limit
